@@ -2,6 +2,7 @@
   Props/C11 — GNU hash lookup is sound on any table (and complete on well-formed ones).
 -/
 import ElfVerif.Lemmas.Hash
+import ElfVerif.Lemmas.GnuComplete
 namespace Elf.C11
 
 /-- **Soundness, for any table bytes.** -/
@@ -76,7 +77,97 @@ theorem find_empty (t : GnuHashTable) (name : Slice) (symtab : Table Symbol) (st
   unfold GnuHashTable.find GnuHashTable.findSteps
   rcases h with h | h <;> simp [Table.isEmpty, h]
 
+/-! ## Completeness on well-formed tables
+
+  `WFGnu t symtab strtab`: `nbucket ≠ 0`, `nbloom ≠ 0`, `nshift < 32`, every bloom word is readable,
+  and every bucket is readable and either empty (`< table_start_idx`) or the start of a run
+  (`GnuChain`: consecutive chain entries whose symbol and name are readable, ending at the first
+  entry with bit 0 set, or at the end of the chain array).  A section built per the GNU format
+  additionally sets the two bloom bits of every hashed symbol's name and stores that name's hash
+  (bit 0 aside) in the symbol's chain entry; those are the hypotheses `hacc`/`hh` of `find_complete`. -/
+
+/-- **On a well-formed table**: `None` if the bloom filter rejects the hash or the bucket is empty;
+    otherwise the first entry of the bucket's run whose stored hash matches and whose name equals
+    the query. -/
+theorem find_wf (t : GnuHashTable) (name : Slice) (symtab : Table Symbol) (strtab : Slice)
+    (hw : WFGnu t symtab strtab) :
+    ∃ filter start,
+      t.bloomTable.get (gnuHash name / bloomWidth t.cls % t.hdr.nbloom) = .ok filter ∧
+      t.buckets.get (gnuHash name % t.buckets.len) = .ok start ∧
+      ((¬ bloomAccepts t (gnuHash name) filter ∨ start < t.hdr.table_start_idx) →
+        t.find name symtab strtab = .ok none) ∧
+      (bloomAccepts t (gnuHash name) filter → ¬ start < t.hdr.table_start_idx →
+        ∃ path, GnuChain t symtab strtab (start - t.hdr.table_start_idx) path ∧
+          t.find name symtab strtab = .ok (firstGnu name (gnuHash name) path)) :=
+  gnu_find_wf t name symtab strtab hw
+
+/-- **Finds every hashed symbol by name**: if the symbol sits in the run of its name's bucket, the
+    bloom filter has its two bits, and its chain entry stores its hash, the lookup answers with a
+    symbol of that run carrying the queried name (the first such). -/
+theorem find_complete (t : GnuHashTable) (name : Slice) (symtab : Table Symbol) (strtab : Slice)
+    (hw : WFGnu t symtab strtab) (filter start : Nat) (path : List (Nat × Symbol × Slice × Nat))
+    (hf : t.bloomTable.get (gnuHash name / bloomWidth t.cls % t.hdr.nbloom) = .ok filter)
+    (hb : t.buckets.get (gnuHash name % t.buckets.len) = .ok start)
+    (hacc : bloomAccepts t (gnuHash name) filter) (hge : ¬ start < t.hdr.table_start_idx)
+    (hp : GnuChain t symtab strtab (start - t.hdr.table_start_idx) path)
+    (e : Nat × Symbol × Slice × Nat) (hm : e ∈ path)
+    (hh : gnuHash name ||| 1 = e.2.2.2 ||| 1) (hn : e.2.2.1.beqBytes name = true) :
+    ∃ j s, t.find name symtab strtab = .ok (some (j, s)) ∧
+      ∃ e', e' ∈ path ∧ e'.1 = j ∧ e'.2.1 = s ∧ e'.2.2.1.beqBytes name = true := by
+  obtain ⟨filter', start', h1, h2, _, h4⟩ := gnu_find_wf t name symtab strtab hw
+  rw [hf] at h1; injection h1 with h1; subst h1
+  rw [hb] at h2; injection h2 with h2; subst h2
+  obtain ⟨path', hp', hfind⟩ := h4 hacc hge
+  have : path' = path := GnuChain.unique hp' hp
+  subst this
+  obtain ⟨j, s, hfg, he'⟩ := firstGnu_some name (gnuHash name) path' e hm hh hn
+  exact ⟨j, s, by rw [hfind, hfg], he'⟩
+
+/-- **Returns `None` for every absent name**: no entry of the bucket's run carries the name —
+    whatever its hash or bucket collides with. -/
+theorem find_absent (t : GnuHashTable) (name : Slice) (symtab : Table Symbol) (strtab : Slice)
+    (hw : WFGnu t symtab strtab) (start : Nat) (path : List (Nat × Symbol × Slice × Nat))
+    (hb : t.buckets.get (gnuHash name % t.buckets.len) = .ok start)
+    (hp : ¬ start < t.hdr.table_start_idx → GnuChain t symtab strtab (start - t.hdr.table_start_idx) path)
+    (habs : ∀ e, e ∈ path → e.2.2.1.beqBytes name = false) :
+    t.find name symtab strtab = .ok none := by
+  obtain ⟨filter', start', _, h2, h3, h4⟩ := gnu_find_wf t name symtab strtab hw
+  rw [hb] at h2; injection h2 with h2; subst h2
+  by_cases hrej : ¬ bloomAccepts t (gnuHash name) filter' ∨ start < t.hdr.table_start_idx
+  · exact h3 hrej
+  · have hacc : bloomAccepts t (gnuHash name) filter' := by
+      by_cases h : bloomAccepts t (gnuHash name) filter'
+      · exact h
+      · exact absurd (Or.inl h) hrej
+    have hge : ¬ start < t.hdr.table_start_idx := fun h => hrej (Or.inr h)
+    obtain ⟨path', hp', hfind⟩ := h4 hacc hge
+    have : path' = path := GnuChain.unique hp' (hp hge)
+    subst this
+    rw [hfind, firstGnu_none name (gnuHash name) path' habs]
+
 example : gnuHash (Slice.ofArray #[]) = 5381 := by decide
 example : gnuHash (Slice.ofArray #[97, 98]) = gnuHash (Slice.ofArray #[98, 65]) := by decide
+
+/- Non-vacuity of `WFGnu` and of `find_complete`'s hypotheses: a one-bucket, one-word-bloom ELF32
+   table for the symbol table whose symbol 1 is named "a" (hash 177670: bloom bits 6 and 24,
+   chain entry 177671). -/
+def gT : GnuHashTable := ⟨⟨1,1,1,6⟩, true, .ELF32, Slice.ofArray #[0x40,0,0,1],
+  u32Table true .ELF32 (Slice.ofArray #[1,0,0,0]), u32Table true .ELF32 (Slice.ofArray #[0x07,0xB6,0x02,0x00])⟩
+def gSym : Table Symbol := symTable true .ELF32 (Slice.ofArray #[0,0,0,0, 0,0,0,0, 0,0,0,0, 0,0,0,0,
+                                                  1,0,0,0, 0,0,0,0, 0,0,0,0, 0x12,0,1,0])
+def gStr : Slice := Slice.ofArray #[0, 97, 0]
+theorem gWF : WFGnu gT gSym gStr := by
+  refine ⟨by decide, by decide, by decide, ?_, ?_⟩
+  · intro w hw
+    have : w = 0 := by have : gT.hdr.nbloom = 1 := rfl; omega
+    subst this; exact ⟨16777280, by decide⟩
+  · intro b hb
+    have : b = 0 := by have : gT.buckets.len = 1 := by decide
+                       omega
+    subst this
+    refine ⟨1, by decide, Or.inr ⟨[(1, ⟨1,1,0x12,0,0,0⟩, ⟨gStr.buf, 1, 2⟩, 177671)], ?_⟩⟩
+    exact GnuChain.last 0 177671 _ _ (by decide) (by decide) (by decide) (by decide) (by decide) (by decide)
+example : (gT.find (Slice.ofArray #[97]) gSym gStr) = .ok (some (1, ⟨1,1,0x12,0,0,0⟩)) := by decide
+example : bloomAccepts gT (gnuHash (Slice.ofArray #[97])) 16777280 := by unfold bloomAccepts; decide
 
 end Elf.C11
